@@ -1,7 +1,32 @@
 //! C14: correspondence + oracle runs (sub-commands `c14` / `c14-*`).
 use hcommon::*;
 
+// ---- decoder totality for IPv4 / UDP / TCP (builder codec-a) --------------------------------
+// malformed stream: random bytes, every truncation of valid packets, single-field mutations,
+// extreme length fields; generators/executor/oracle shared with C08 (`c08.rs`, `c08_exec.rs`).
+
+fn run_c14_ipv4(args: &Args) {
+    super::c08::run_proto(args, "ipv4", super::c08::Mode::C14)
+}
+
+fn run_c14_udp(args: &Args) {
+    super::c08::run_proto(args, "udp", super::c08::Mode::C14)
+}
+
+fn run_c14_tcp(args: &Args) {
+    super::c08::run_proto(args, "tcp", super::c08::Mode::C14)
+}
+
+// ---- end of the IPv4 / UDP / TCP part --------------------------------------------------------
+
 pub fn run(args: &Args) {
-    eprintln!("hcore: {} not implemented yet", args.prop);
-    std::process::exit(2);
+    match args.prop.as_str() {
+        "c14-ipv4" => run_c14_ipv4(args),
+        "c14-udp" => run_c14_udp(args),
+        "c14-tcp" => run_c14_tcp(args),
+        _ => {
+            eprintln!("hcore: {} not implemented yet", args.prop);
+            std::process::exit(2);
+        }
+    }
 }
